@@ -496,6 +496,7 @@ func createSwitchStatementChunks(stmt *ast.SwitchStatement, statementIndex int, 
 	branchCases := []*switchCaseBranch{}
 	i := 0
 	processedDefaultCase := false
+	var noopChunk *chunk
 	for i < len(stmt.Cases) {
 		switchCase := stmt.Cases[i]
 		destChunkID := -1
@@ -567,8 +568,24 @@ func createSwitchStatementChunks(stmt *ast.SwitchStatement, statementIndex int, 
 			// bodies, we want to completely omit even rendering the switch statement because
 			// it's a no-op. By early-returning here, we avoid adding the switch branchBehavior,
 			// which will result in the switch not being rendered in the output.
-			if len(branchCases) == 0 {
+			if len(branchCases) == 0 && !processedDefaultCase {
 				return remainingChunks, &jump{destChunkID: switchChunk.id}, returnID
+			}
+			if processedDefaultCase && !stmt.Cases[i].IsDefault {
+				// The trailing case does nothing, so it must explicitly skip over the default case.
+				if noopChunk == nil {
+					*chunkCounter++
+					noopChunk = &chunk{
+						id:         *chunkCounter,
+						returnID:   returnID,
+						statements: []ast.Statement{},
+					}
+					remainingChunks = append(remainingChunks, noopChunk)
+				}
+				branchCases = append(branchCases, &switchCaseBranch{
+					comparisonValue: stmt.Cases[i].Value,
+					destChunkID:     noopChunk.id,
+				})
 			}
 		} else if !stmt.Cases[i].IsDefault {
 			branchCases = append(branchCases, &switchCaseBranch{
